@@ -405,12 +405,12 @@ pub fn case_strategy_topics(
         .boxed()
 }
 
-/// A history that starts by allocating 96..=99 blocks, so that the generated operations after
+/// A history that starts by allocating 98..=100 blocks, so that the generated operations after
 /// it cross the file roll-over (block 101 goes to a new WAL file).
 pub fn fileroll_case_strategy(mix: Mix, nops: std::ops::Range<usize>, max_topics: usize, mode: BoxedStrategy<Mode>) -> BoxedStrategy<Case> {
     (
         cfg_strategy(max_topics, mode),
-        (any::<u16>(), 96u8..=99),
+        (any::<u16>(), 98u8..=100),
         proptest::collection::vec(op_strategy(&mix, SizeProfile::Block), nops),
         drain_strategy(),
     )
